@@ -11,7 +11,7 @@ SPEC = Spec(
         Harness(name="queue", module="exporter", pkg=_PKG, files={"zz_verif_c02_queue_test.go": "c02/queue_test.go"},
                 test="TestVerifC02Queue", driver="drv_c02", go="go1.26", n={"quick": 12000, "thorough": 200000}, timeout_s=1500),
         Harness(name="persistent", module="exporter", pkg=_PKG, files={"zz_verif_c02_persistent_test.go": "c02/persistent_test.go", "zz_verif_c02_queue_test.go": "c02/queue_test.go"},
-                test="TestVerifC02Persistent", driver=None, go="go1.26", n={"quick": 4000, "thorough": 60000}, timeout_s=1500),
+                test="TestVerifC02Persistent", driver="drv_c02", go="go1.26", n={"quick": 4000, "thorough": 60000}, timeout_s=1500),
     ],
     rule="cond: the real cond with a scheduler-controlled sync.Locker in a synctest bubble; random schedules of start/grant/cancel over "
          "1-4 waiters and 1-4 signallers/broadcasters (4-32 labels + a finishing phase; corpus cases 0-1 = the design-phase deadlock "
